@@ -421,6 +421,11 @@ func (fx *FuncCtx) fresh(t types.Type, hint string) Val {
 				return VStrMap{ID: sanitizeIdent(hint)}
 			}
 		}
+		if k, kind, ok := mapKinds(u); ok {
+			r := fx.declare(sortInt, hint)
+			fx.emit(fmt.Sprintf("(assert (<= 0 %s))", r))
+			return VMapRef{T: r, K: k, V: u.Elem(), Kind: kind}
+		}
 	case *types.Tuple:
 		var out VTuple
 		for i := 0; i < u.Len(); i++ {
